@@ -26,3 +26,19 @@ pub assume_specification<T: Clone>[ <[T]>::to_vec ](s: &[T]) -> (r: Vec<T>)
 // string slices are values: equal text means equal (used to move between `&str` equality and views)
 pub broadcast axiom fn axiom_str_ext(a: &str, b: &str)
     ensures #[trigger] a@ == #[trigger] b@ ==> a == b;
+
+// String::len is the UTF-8 byte length
+pub assume_specification[ String::len ](s: &String) -> (r: usize)
+    ensures r == str_byte_len(s@);
+
+// HashMap::get_mut (vstd specifies get/insert/contains_key only): the entry borrowed is the one whose key borrows as `k`;
+// writing through the returned reference updates exactly that entry
+pub assume_specification<'a, K, V, S, A, Q>[ HashMap::<K, V, S, A>::get_mut::<Q> ](m: &'a mut HashMap<K, V, S, A>, k: &Q) -> (r: Option<&'a mut V>)
+    where K: std::borrow::Borrow<Q> + Eq + std::hash::Hash, Q: std::hash::Hash + Eq + ?Sized, S: std::hash::BuildHasher, A: std::alloc::Allocator
+    ensures
+        vstd::std_specs::hash::obeys_key_model::<K>() && vstd::std_specs::hash::builds_valid_hashers::<S>() ==> match r {
+            Some(v) => exists|key: K| #![trigger old(m)@.dom().contains(key)] old(m)@.dom().contains(key)
+                && vstd::std_specs::hash::contains_borrowed_key(Map::<K, ()>::empty().insert(key, ()), k)
+                && old(m)@[key] == *v && final(m)@ == old(m)@.insert(key, *final(v)),
+            None => !vstd::std_specs::hash::contains_borrowed_key(old(m)@, k) && final(m)@ == old(m)@,
+        };
